@@ -155,6 +155,17 @@ def splitAccepts (key : Nat) (p : Pad) : Bool :=
 /-- `pads.sort_by_key(count)`, `max_version = last.count`: the largest counter (0 for no pads, where it is not used) -/
 def maxCtr (pads : List Pad) : Nat := pads.foldl (fun m p => Nat.max m p.ctr) 0
 
+/-- `latest_pads` of the `SplitRecord` arm: stable sort by count, keep the pads of the last one's count — with the
+owner/signature filter applied either before the highest count is determined (forged versions are discarded first)
+or only to the candidates of the highest count. -/
+def latestPads (key : Nat) (m : List (Rec B)) : List Pad :=
+  let all := m.filterMap padOf
+  if Gen.ClientRead.vaultSplitFiltersBeforeMax then
+    let pads := all.filter (splitAccepts key)
+    pads.filter (fun p => p.ctr == maxCtr pads)
+  else
+    (all.filter (fun p => p.ctr == maxCtr all)).filter (splitAccepts key)
+
 /-- `get_vault_from_network` for the secret key whose public key is `key` -/
 def getVault (key : Nat) (reply : Reply B) : Except VaultErr Pad :=
   match netGet reply with
@@ -164,9 +175,7 @@ def getVault (key : Nat) (reply : Reply B) : Except VaultErr Pad :=
     | some p => if okAccepts key p then .ok p else .error .invalid
   | .error (.split m) =>
     if Gen.ClientRead.vaultSplitDropsUndeserialisable || m.all (fun r => (padOf r).isSome) then
-      let pads := (m.filterMap padOf).filter (splitAccepts key)
-      -- stable sort by count, keep those of the last one's count, take the first
-      match pads.filter (fun p => p.ctr == maxCtr pads) with
+      match latestPads key m with
       | p :: _ => .ok p
       | [] => .error .missing
     else .error .invalid
